@@ -91,7 +91,7 @@ facts["updateImpl"] = order(col, "update_impl", [
     ("counters", rx("self . update_metadata (")),
 ])
 ub = fn_body(col, "update_impl")
-facts_bool["updatePutIsVersionConditioned"] = re.search(rx("self . storage . put ( & path , & doc , Some ( ver ) )"), ub) is not None
+facts_bool["updatePutIsVersionConditioned"] = re.search(rx("storage . put ( & path , & doc , Some ( ver )") + W + r",?" + W + r"\)", ub) is not None
 # the guard of the doc lock must be a named binding that lives to the end of the function (not `let _ =`)
 facts_bool["updateHoldsDocLockToEnd"] = re.search(r"let\s+_[A-Za-z]\w*\s*=" + W + rx("self . doc_lock ( id ) . lock ( ) . await"), ub) is not None and \
     re.search(r"drop\(\s*_doc_guard\s*\)", ub) is None
